@@ -23,7 +23,7 @@ type Bitmap struct {
 
 const (
 	blobTag  = 0xB1
-	maxWords = 32
+	maxWords = 1056 // rows < 67584: lets a harness cross the 65536-row container boundary
 )
 
 func symIsConcrete(x uint64) bool
